@@ -100,7 +100,7 @@ impl<T, D: Data<Elem = f64>> Fit<ArrayBase<D, Ix2>, T, ReductionError> for PcaPa
         };
         // the solver's stopping tolerance is absolute: below the round-off level of large data it would keep
         // iterating on noise, so it is given relative to the scale of the data
-        let scale = x.iter().map(|v| v * v).sum::<f64>().sqrt().max(1.0);
+        let scale = x.iter().map(|v| v * v).sum::<f64>().sqrt();
         let precision = (1e-5 * scale) as f32;
 
         // estimate Singular Value Decomposition
